@@ -526,11 +526,67 @@ def r19d(ctx):
                                f"string and negative forms are not normalised like everywhere else")
 
 
+# ------------------------------------------------------------------ R19e
+def r19e(ctx):
+    """Column letters <-> numbers: the two conversions use the same base and inverse offsets."""
+    repo = ctx.repo
+    ctx.rule("R19e", "alpha_to_digit and digit_to_alpha use one base (26) and inverse offsets", floor=4)
+    a2d = repo.func("utils.coordinates:alpha_to_digit")
+    d2a = repo.func("utils.coordinates:digit_to_alpha")
+
+    def ints(f):
+        return sorted(n.value for n in walk_no_nested(f.node) if isinstance(n, ast.Constant) and isinstance(n.value, int) and not isinstance(n.value, bool))
+
+    ia, idg = ints(a2d), ints(d2a)
+    mul = [n for n in walk_no_nested(a2d.node) if isinstance(n, ast.BinOp) and isinstance(n.op, ast.Mult)]
+    ok = len(mul) == 1 and repo.fold(mul[0].right, a2d.module) == 26 and ia.count(26) == 1
+    ctx.instance("R19e", f"{a2d.file}:{a2d.ident}", f"accumulates column * 26 + v (constants {ia})", ok=ok, nontrivial=True)
+    if not ok:
+        ctx.report("R19e", a2d, a2d.node, f"alpha_to_digit constants {ia}", "alpha_to_digit does not accumulate in base 26")
+    mods = [n for n in walk_no_nested(d2a.node) if isinstance(n, ast.BinOp) and isinstance(n.op, (ast.Mod, ast.FloorDiv))]
+    ok = len(mods) == 2 and all(repo.fold(n.right, d2a.module) == 26 for n in mods) and {type(n.op) for n in mods} == {ast.Mod, ast.FloorDiv} \
+        and all(ast.unparse(n.left).replace(" ", "") in ("digit-1", "(digit-1)") for n in mods)
+    ctx.instance("R19e", f"{d2a.file}:{d2a.ident}", f"peels (digit - 1) % 26 and (digit - 1) // 26 (constants {idg})", ok=ok, nontrivial=True)
+    if not ok:
+        ctx.report("R19e", d2a, d2a.node, f"digit_to_alpha constants {idg}", "digit_to_alpha does not peel digits with (digit - 1) % 26 and (digit - 1) // 26 (bijective base 26)")
+    # offsets: parser: ord(c) - ord('a') + 1 on lower-cased input, result - 1 ; printer: digit += 1, chr(65 + …)
+    sa = ast.unparse(a2d.node)
+    ok = "ord(c) - ord('a') + 1" in sa and ".lower()" in sa and "return column - 1" in sa
+    ctx.instance("R19e", f"{a2d.file}:{a2d.ident}", "digits a..z ↦ 1..26 on lower-cased input, result shifted to 0-based", ok=ok, nontrivial=True)
+    if not ok:
+        ctx.report("R19e", a2d, a2d.node, "alpha_to_digit offsets", "letter values / zero-based shift of alpha_to_digit changed")
+    sd = ast.unparse(d2a.node)
+    ok = "digit += 1" in sd and ("chr(65 +" in sd or "chr(ord('A') +" in sd) and "+ column" in sd
+    ctx.instance("R19e", f"{d2a.file}:{d2a.ident}", "1-based shift, 'A' + remainder, most significant letter first", ok=ok, nontrivial=True)
+    if not ok:
+        ctx.report("R19e", d2a, d2a.node, "digit_to_alpha offsets", "digit_to_alpha no longer shifts to 1-based, maps remainders to 'A'.. and prepends letters")
+    # convert_coordinates: rows are 1-based in strings
+    cc = repo.func("utils.coordinates:convert_coordinates")
+    sc = ast.unparse(cc.node)
+    ok = "int(coord[len(alpha):]) - 1" in sc and "split(':', 1)" in sc
+    ctx.instance("R19e", f"{cc.file}:{cc.ident}", "row number parsed as int(...) - 1; range split on the first ':'", ok=ok, nontrivial=True)
+    if not ok:
+        ctx.report("R19e", cc, cc.node, "convert_coordinates row offset", "row numbers in 'A1' notation are 1-based: the parser must subtract one; ranges split on ':'")
+    tf = repo.func("utils.coordinates:translate_from_any")
+    st = ast.unparse(tf.node)
+    ok = "convert_coordinates(x)[idx]" in st and "increment(value_int, length)" in st and "value_int < 0" in st
+    ctx.instance("R19e", f"{tf.file}:{tf.ident}", "string form parsed by convert_coordinates, negatives wrapped by increment(value, length)", ok=ok, nontrivial=True)
+    if not ok:
+        ctx.report("R19e", tf, tf.node, "translate_from_any", "translate_from_any no longer parses strings with convert_coordinates / wraps negatives with the length")
+    inc = repo.func("utils.coordinates:increment")
+    si = ast.unparse(inc.node)
+    ok = "while value < 0" in si and "value += step" in si
+    ctx.instance("R19e", f"{inc.file}:{inc.ident}", "negative values are wrapped by adding the length until non-negative", ok=ok)
+    if not ok:
+        ctx.report("R19e", inc, inc.node, "increment", "increment no longer adds the length until the value is non-negative")
+
+
 def run(ctx):
     r19a(ctx)
     r19b(ctx)
     r19c(ctx)
     r19d(ctx)
+    r19e(ctx)
 
 
 from ..selftest import Seed, unparse_seed  # noqa: E402
@@ -570,5 +626,8 @@ SEEDS = [
     Seed("delete_row uses the raw argument", "fault", _T,
          "        y = self._translate_y_from_any(y)\n        # Outside the defined table\n        if y >= self.height:\n            return\n        # Inside the defined table\n        delete_item_in_vault(y, self, _xpath_row_idx, \"_tmap\")",
          "        # Outside the defined table\n        if y >= self.height:\n            return\n        # Inside the defined table\n        delete_item_in_vault(y, self, _xpath_row_idx, \"_tmap\")", "R19d"),
-    unparse_seed(_T), unparse_seed(_R),
+    Seed("digit_to_alpha divides by 25", "fault", "src/odfdo/utils/coordinates.py", "        digit = (digit - 1) // 26", "        digit = (digit - 1) // 25", "R19e"),
+    Seed("alpha_to_digit forgets the zero-based shift", "fault", "src/odfdo/utils/coordinates.py", "    return column - 1", "    return column", "R19e"),
+    Seed("convert_coordinates keeps rows 1-based", "fault", "src/odfdo/utils/coordinates.py", "            line = int(coord[len(alpha) :]) - 1", "            line = int(coord[len(alpha) :])", "R19e"),
+    unparse_seed(_T), unparse_seed(_R), unparse_seed("src/odfdo/utils/coordinates.py"),
 ]
